@@ -27,6 +27,10 @@ pub enum DynFault {
     None,
     OverLit,
     OverDist,
+    /// more than 2^l literal/length symbols, all of length l (l = 1 or 2), nothing longer
+    OverLitFlat(u8),
+    /// more than 2^l distance symbols, all of length l (l = 1 or 2), nothing longer
+    OverDistFlat(u8),
     OverCl,
     IncompleteLit,
     IncompleteDist,
@@ -496,6 +500,31 @@ impl Builder {
             }
             _ => {}
         }
+        let mut flat_keep_l: Option<Vec<u8>> = None;
+        if let DynFault::OverLitFlat(l) = fault {
+            let used: Vec<usize> = (0..286).filter(|&i| lit_used[i]).collect();
+            let cap = 1usize << l;
+            let maxu = *used.last().unwrap();
+            let mut pool: Vec<usize> = (maxu + 1..286).collect();
+            rng.shuffle(&mut pool);
+            let want = cap - used.len().min(cap) + 1 + rng.below(4);
+            if used.len() > cap || pool.len() < want {
+                feasible = false;
+            } else {
+                let mut set = used.clone();
+                set.extend_from_slice(&pool[..want]);
+                set.sort();
+                lit_lens = vec![0u8; 288];
+                let mut keep = vec![0u8; 288];
+                for (i, &sy) in set.iter().enumerate() {
+                    lit_lens[sy] = l;
+                    if i < cap {
+                        keep[sy] = l;
+                    }
+                }
+                flat_keep_l = Some(keep);
+            }
+        }
         let n_d_used = d_used.iter().filter(|&&x| x).count();
         let mut d_syms: Vec<usize> = (0..30).filter(|&i| d_used[i]).collect();
         let mut d_unused: Vec<usize> = (0..30).filter(|&i| !d_used[i]).collect();
@@ -572,6 +601,31 @@ impl Builder {
                 for (s, l) in d_syms.iter().zip(ls) {
                     d_lens[*s] = l;
                 }
+            }
+        }
+        let mut flat_keep_d: Option<Vec<u8>> = None;
+        if let DynFault::OverDistFlat(l) = fault {
+            let used: Vec<usize> = (0..30).filter(|&i| d_used[i]).collect();
+            let cap = 1usize << l;
+            let lo = used.last().map_or(0, |&m| m + 1);
+            let mut pool: Vec<usize> = (lo..30).collect();
+            rng.shuffle(&mut pool);
+            let want = cap - used.len().min(cap) + 1 + rng.below(4);
+            if used.len() > cap || pool.len() < want || has_undef_dist {
+                feasible = false;
+            } else {
+                let mut set = used.clone();
+                set.extend_from_slice(&pool[..want]);
+                set.sort();
+                d_lens = vec![0u8; 32];
+                let mut keep = vec![0u8; 32];
+                for (i, &sy) in set.iter().enumerate() {
+                    d_lens[sy] = l;
+                    if i < cap {
+                        keep[sy] = l;
+                    }
+                }
+                flat_keep_d = Some(keep);
             }
         }
         // HLIT / HDIST
@@ -718,6 +772,12 @@ impl Builder {
         }
         if fault == DynFault::OverDist {
             dl[29] = 0;
+        }
+        if let Some(k) = flat_keep_l {
+            ll = k;
+        }
+        if let Some(k) = flat_keep_d {
+            dl = k;
         }
         let lc = canonical_codes(&ll[..286]);
         let dc = canonical_codes(&dl[..30]);
